@@ -279,6 +279,49 @@ theorem append_after_torn_tail_unreadable_counterexample :
       = KV.Wal.frames KV.Wal.cfgT [[1, 2, 3]] :=
   KV.Wal.append_after_torn_tail_unreadable_counterexample
 
+/-- **append_after_short_fragment_unreadable_old_rule (F38).** A tail torn after 1-3 bytes of a
+record (here 2: inside the checksum field). With the decoder as it was, the group reader's
+`(2, io.EOF)` was taken for a clean end of log: no repair, the next life's record lands behind the
+stray bytes, is never read back (old or new rule) and is cut off by the repair of a later restart —
+a synced own vote is lost. With the decoder as it is, the fragment is `corrupt`, the repair cuts it
+off and the appended record is read back. -/
+theorem append_after_short_fragment_unreadable_old_rule :
+    KV.Wal.decodeAllOld KV.Wal.cfgT .group
+        (KV.Wal.frames KV.Wal.cfgT [[1, 2, 3]] ++ (KV.Wal.frame KV.Wal.cfgT [1, 2, 3]).take 2)
+      = ([[1, 2, 3]], .eof) ∧
+    KV.Wal.decodeAllOld KV.Wal.cfgT .group
+        (KV.Wal.frames KV.Wal.cfgT [[1, 2, 3]] ++
+          ((KV.Wal.frame KV.Wal.cfgT [1, 2, 3]).take 2 ++ KV.Wal.frames KV.Wal.cfgT [[9]]))
+      = ([[1, 2, 3]], .corrupt) ∧
+    KV.Wal.decodeAll KV.Wal.cfgT .group
+        (KV.Wal.frames KV.Wal.cfgT [[1, 2, 3]] ++
+          ((KV.Wal.frame KV.Wal.cfgT [1, 2, 3]).take 2 ++ KV.Wal.frames KV.Wal.cfgT [[9]]))
+      = ([[1, 2, 3]], .corrupt) ∧
+    (KV.Wal.repair KV.Wal.cfgT
+        (KV.Wal.frames KV.Wal.cfgT [[1, 2, 3]] ++
+          ((KV.Wal.frame KV.Wal.cfgT [1, 2, 3]).take 2 ++ KV.Wal.frames KV.Wal.cfgT [[9]]))).1
+      = KV.Wal.frames KV.Wal.cfgT [[1, 2, 3]] ∧
+    KV.Wal.decodeAll KV.Wal.cfgT .group
+        (KV.Wal.frames KV.Wal.cfgT [[1, 2, 3]] ++ (KV.Wal.frame KV.Wal.cfgT [1, 2, 3]).take 2)
+      = ([[1, 2, 3]], .corrupt) ∧
+    KV.Wal.decodeAll KV.Wal.cfgT .group
+        ((KV.Wal.repair KV.Wal.cfgT
+          (KV.Wal.frames KV.Wal.cfgT [[1, 2, 3]] ++ (KV.Wal.frame KV.Wal.cfgT [1, 2, 3]).take 2)).1 ++
+          KV.Wal.frames KV.Wal.cfgT [[9]])
+      = ([[1, 2, 3], [9]], .eof) :=
+  KV.Wal.append_after_short_fragment_unreadable_old_rule
+
+/-- **torn_tail_never_clean_eof (F38).** What the recovery relies on: through the group reader a log
+cut anywhere inside a record (1 byte or more of it left) ends in `corrupt`, never in a clean `eof` —
+so `OnStart` always repairs before the next life appends. -/
+theorem torn_tail_never_clean_eof (c : KV.Wal.Cfg) (ds : List KV.Bytes) (t : Nat)
+    (hmax : c.max < 4294967296) (hv : ∀ d ∈ ds, KV.Wal.Valid c d)
+    (ht : t < (KV.Wal.frames c ds).length)
+    (hcut : ∀ j, t ≠ (KV.Wal.frames c (ds.take j)).length) :
+    ∃ j, KV.Wal.decodeAll c .group ((KV.Wal.frames c ds).take t) = (ds.take j, .corrupt) :=
+  let ⟨j, h, _⟩ := KV.Wal.torn_tail_never_clean_eof c ds t hmax hv ht hcut
+  ⟨j, h⟩
+
 /-! ### F7: the proposal is not a function of the log -/
 
 open KV.Cs in
